@@ -130,3 +130,13 @@ def loop_exits(body, blocks):
 def lib_roots(crate):
     """public API entry points of the library crate"""
     return sorted(p for p, f in crate.fns.items() if f["pub"] and f["has_body"])
+
+
+def look_through_private(crate, body, also=None):
+    """body with calls to private, non-recursive crate helpers inlined (refactoring tolerance)"""
+    def pred(cb, t):
+        f = crate.fns.get(cb.name)
+        if f is None or f.get("pub"):
+            return False
+        return also is None or also(cb, t)
+    return mir.inline_calls(crate, body, pred)
